@@ -9,7 +9,7 @@ LEAN_TARGETS = ['TxV.Props.C15']
 PROP_MODULES = ['TxV.Props.C15']
 AUDIT = 'Audit/C15.lean'
 ANCHORS = ['txtorcon/onion.py', 'txtorcon/torcontrolprotocol.py']
-RULE = ('real EphemeralOnionService.create() on the real protocol against the fake Tor: histories of HS_DESC UPLOAD / UPLOADED / FAILED events '
+RULE = ('real EphemeralOnionService.create() (and, for a fifth of the cases, FilesystemOnionService.create() with the events arriving before the SETCONF is acknowledged) on the real protocol against the fake Tor: histories of HS_DESC UPLOAD / UPLOADED / FAILED events '
         'over 1..4 directories (named by fingerprint, or by LongName with a nickname shared by all of them) for the service itself and for a second service sharing directories, in both waiting modes, with the control connection lost at a random position in some histories, with the ADD_ONION '
         'reply released before, between or after the events; after every input the state of the create() Deferred and the HS_DESC subscription '
         'are recorded. Quick: random histories; thorough: all orderings of per-directory event scripts for <= 3 directories. '
@@ -30,8 +30,9 @@ def dir_s(d, style='fp'):
 
 
 class Impl:
-    def __init__(self, await_all, style='fp'):
+    def __init__(self, await_all, style='fp', reason='UPLOAD_REJECTED'):
         self.style = style
+        self.reason = (' REASON=' + reason) if reason else ''   # control-spec: UPLOAD_REJECTED, UNEXPECTED, … or no REASON at all
         from harness.simtor import SimTor
         from txtorcon import TorConfig
         from txtorcon.onion import EphemeralOnionService
@@ -68,12 +69,53 @@ class Impl:
             elif kind == 'uploaded':
                 self.st.event('HS_DESC UPLOADED %s UNKNOWN %s' % (addr, dir_s(d, self.style)))
             else:
-                self.st.event('HS_DESC FAILED %s UNKNOWN %s REASON=UPLOAD_REJECTED' % (addr, dir_s(d, self.style)))
+                self.st.event('HS_DESC FAILED %s UNKNOWN %s%s' % (addr, dir_s(d, self.style), self.reason))
+        return [self.result[0] if self.result else 'none', 'sub' if 'HS_DESC' in self.st.proto.events else 'unsub']
+
+
+class FsImpl(Impl):
+    """the same wait, entered through FilesystemOnionService.create(): the address is known from the start (the directory
+    holds a hostname file), the command is a SETCONF, and create() also waits for its acknowledgement"""
+
+    def __init__(self, await_all, style='fp', reason='UPLOAD_REJECTED'):
+        import os, tempfile
+        self.style = style
+        self.reason = (' REASON=' + reason) if reason else ''
+        from harness.simtor import SimTor
+        from txtorcon import TorConfig
+        from txtorcon.onion import FilesystemOnionService
+        self.st = SimTor().connect()
+        self.cfg = TorConfig(self.st.proto)
+        self.own = 'svc1abcdefghijkl'
+        self.other = 'otherservice0001'
+        self.tmp = tempfile.mkdtemp(prefix='c15fs')
+        with open(os.path.join(self.tmp, 'hostname'), 'w') as f:
+            f.write(self.own + '.onion\n')
+        self.st.hold_prefixes.add('SETCONF')
+        self.result = []
+        d = FilesystemOnionService.create(None, self.cfg, self.tmp, ['80 127.0.0.1:8080'], version=3, await_all_uploads=await_all)
+        d.addCallbacks(lambda r: self.result.append('ok'), lambda f: self.result.append('fail') and None)
+
+    def finish(self):
+        import shutil
+        self.st.hold_prefixes.discard('SETCONF')
+        while self.st.release('SETCONF'):
+            pass
+        shutil.rmtree(self.tmp, ignore_errors=True)
         return [self.result[0] if self.result else 'none', 'sub' if 'HS_DESC' in self.st.proto.events else 'unsub']
 
 
 def run_impl(c):
-    im = Impl(c['await_all'], c.get('names', 'fp'))
+    if c.get('kind') == 'fs':
+        im = FsImpl(c['await_all'], c.get('names', 'fp'), c.get('reason', 'UPLOAD_REJECTED'))
+        try:
+            for op in c['ops']:
+                if op[0] == 'ev':
+                    im.do(op)
+        finally:
+            last = im.finish()
+        return [last]
+    im = Impl(c['await_all'], c.get('names', 'fp'), c.get('reason', 'UPLOAD_REJECTED'))
     trace = []
     for op in c['ops']:
         trace.append(im.do(op))
@@ -132,8 +174,16 @@ def gen_history(rng):
 
 def gen_cases(rng, tier):
     n = 500 if tier == 'quick' else 6000
-    for _ in range(n):
-        yield {'await_all': rng.random() < 0.5, 'ops': gen_history(rng), 'names': rng.choice(['fp', 'fp', 'longname', 'named'])}
+    for k in range(n):
+        if k % 5 == 4:
+            # a filesystem service: the events arrive while the SETCONF is unanswered; what is compared is the state after the
+            # acknowledgement (for the model: the address is known from the start)
+            evs = [op for op in gen_history(rng) if op[0] == 'ev']
+            yield {'kind': 'fs', 'await_all': rng.random() < 0.5, 'ops': [['reply']] + evs, 'names': rng.choice(['fp', 'longname']),
+                   'reason': rng.choice(['UPLOAD_REJECTED', 'UNEXPECTED', None])}
+            continue
+        yield {'await_all': rng.random() < 0.5, 'ops': gen_history(rng), 'names': rng.choice(['fp', 'fp', 'longname', 'named']),
+               'reason': rng.choice(['UPLOAD_REJECTED', 'UPLOAD_REJECTED', 'UNEXPECTED', None])}
     if tier == 'thorough':
         scripts = []
         for d in [1, 2, 3]:
@@ -202,10 +252,12 @@ def run_cases(cases, drv, tier):
                 m, s = o.split(' # ')
                 model.append(m.split(' '))
                 spec.append(s.split(' '))
+            if c.get('kind') == 'fs':
+                model, spec = model[-1:], spec[-1:]
         fired = im and im[-1][0] != 'none'
         own_evs = sum(1 for op in c['ops'] if op[0] == 'ev' and op[2])
         lost = any(op[0] == 'lost' for op in c['ops'])
-        tags = ['all' if c['await_all'] else 'any', 'outcome=' + (im[-1][0] if im else 'none'),
+        tags = ['filesystem' if c.get('kind') == 'fs' else 'ephemeral', 'all' if c['await_all'] else 'any', 'outcome=' + (im[-1][0] if im else 'none'),
                 'reply@%s' % ('start' if c['ops'] and c['ops'][0][0] == 'reply' else 'later'), 'H' if h else 'outsideH:' + why] + (['connection-lost'] if lost else [])
         keep_spec = h or why == 'foreign-uploaded-shared-dir'
         res.append(Result(c, im, model, spec if keep_spec else None, in_h=h, nontrivial=bool(fired) or own_evs >= 3, tags=tags))
